@@ -354,6 +354,13 @@ StartWorkflow ==
 
 (* handlers/start_stage/handler.py *)
 ShouldSkip(s) == P.enabled[s] = "no"
+(* WCP-18 milestone (handlers/start_stage/conditions.py:_is_milestone_expired): the stage is enabled only while its milestone
+   stage is in the required status; once the milestone stage has COMPLETED in another status the stage is skipped; a
+   milestone stage that is still active in another status does not hold it back. *)
+MilestoneExpired(s) ==
+  /\ P.msref[s] # ""
+  /\ \/ P.msref[s] \notin DOMAIN st
+     \/ (st[P.msref[s]].status # P.msstatus[s] /\ st[P.msref[s]].status \in Complete)
 MutexBlocked(s) == P.mutex[s] # "" /\ \E o \in Stages \ {s} : o \in DOMAIN st /\ P.mutex[o] = P.mutex[s] /\ st[o].status = "RUNNING"
 ChoiceClaimed(s) == P.choice[s] # "" /\ \E o \in Stages \ {s} : o \in DOMAIN st /\ P.choice[o] = P.choice[s] /\ st[o].status # "NOT_STARTED"
 
@@ -404,6 +411,10 @@ StartStage ==
             ELSE IF ShouldSkip(s)
             THEN /\ Commit(<<SkipStageM(s)>>, TRUE)
                  /\ SetWk("hdone") /\ Label("StartStageDisabled")
+                 /\ UNCHANGED <<wf, st, tk, dlq, claims, ledger, gh, cnt>>
+            ELSE IF MilestoneExpired(s)
+            THEN /\ Commit(<<SkipStageM(s)>>, TRUE)
+                 /\ SetWk("hdone") /\ Label("StartStageMilestoneExpired")
                  /\ UNCHANGED <<wf, st, tk, dlq, claims, ledger, gh, cnt>>
             ELSE IF MutexBlocked(s)
             THEN /\ Commit(<<StartStageRC(s, Cur.rc + 1)>>, FALSE)
